@@ -54,6 +54,10 @@ def gen_case(job, seed):
         n = job.get("shape_n", 4)
         idx = seed if not job.get("shape_sample") else rng.randrange(len(defs.shape_family(n)))
         return defs.gen_shape(idx, n)
+    if g == "cshape":
+        n = job.get("shape_n", 4)
+        idx = seed if not job.get("shape_sample") else rng.randrange(len(defs.cshape_family(n)))
+        return defs.gen_cshape(idx, n)
     if g == "mix":
         g = "loop" if rng.random() < job.get("p_loop", 0.3) else "dag"
     m, inputs = GENS[g](rng, job.get("P"))
